@@ -7,7 +7,7 @@
 //! OS-specific bits), three program-header orders (with PT_DYNAMIC first/last, B before A, an unloaded PT_NOTE), and
 //! one of six symbol-table variants (.dynsym via PT_DYNAMIC with / without DT_HASH, PLT relocations (RELA on 64-bit,
 //! REL on 32-bit), .symtab/.strtab via section headers; defined / undefined / value-0 / OBJECT / LOCAL / WEAK /
-//! SHN_ABS / aliased symbols; e_entry equal to a symbol or not).
+//! SHN_ABS / aliased symbols; e_entry equal to a symbol or not); e_type alternates between ET_EXEC and ET_DYN.
 //! Each image is loaded at three bases with four user-entry lists and `falcon::loader::Elf` is compared with a model
 //! computed from the SPEC of the image (segment table and symbol lists as enumerated, never re-parsed from the bytes): memory bytes and permissions at every address of
 //! every segment plus a 16-byte margin (later PT_LOAD overrides earlier), nothing mapped outside, byte order of
@@ -56,6 +56,7 @@ const STB_LOCAL: u8 = 0; const STB_GLOBAL: u8 = 1; const STB_WEAK: u8 = 2;
 struct Sym { name: &'static str, typ: u8, bind: u8, shndx: u16, value: u64 }
 #[derive(Clone, Debug)]
 struct Spec {
+    e_type: u16,                // ET_EXEC = 2 / ET_DYN = 3
     entry: u64,
     a: Seg,
     b: Option<Seg>,
@@ -94,7 +95,7 @@ fn build(cfg: &Cfg, spec: &Spec) -> Vec<u8> {
     let dynsize: u64 = if cfg.is64 { 16 } else { 8 };
     // ELF header
     w.raw(&[0x7f, b'E', b'L', b'F', if cfg.is64 { 2 } else { 1 }, if cfg.be { 2 } else { 1 }, 1, 0, 0, 0, 0, 0, 0, 0, 0, 0]);
-    w.u16(2); w.u16(cfg.machine); w.u32(1);
+    w.u16(spec.e_type); w.u16(cfg.machine); w.u32(1);
     w.word(spec.entry); w.word(PH as u64); w.word(if spec.syms.is_some() { SHDR as u64 } else { 0 });
     w.u32(0);
     w.u16(if cfg.is64 { 64 } else { 52 }); w.u16(if cfg.is64 { 56 } else { 32 }); w.u16(spec.order.len() as u16);
@@ -299,10 +300,11 @@ fn main() {
             let mut order: Vec<Phdr> = match ord { 0 => vec![Phdr::A, Phdr::B, Phdr::Dynamic], 1 => vec![Phdr::Dynamic, Phdr::A, Phdr::Note, Phdr::B], _ => vec![Phdr::B, Phdr::A, Phdr::Dynamic] };
             order.retain(|p| !(*p == Phdr::B && b.is_none()) && !(*p == Phdr::Dynamic && !dynamic));
             if ord == 2 && b.is_none() { continue; } // same as order 0
-            let spec = Spec { entry, a, b, order, dynamic, hash, dynsyms, plt, syms };
+            let e_type: u16 = if (bk + var + (a_bss != 0) as usize) % 2 == 0 { 2 } else { 3 };
+            let spec = Spec { e_type, entry, a, b, order, dynamic, hash, dynsyms, plt, syms };
             let file = build(cfg, &spec);
             images += 1;
-            let ctx = format!("{} A={:x?} B={:x?} headers={:?} symbols=variant{} e_entry={:#x}", cfg.name, spec.a, spec.b, spec.order, var, spec.entry);
+            let ctx = format!("{} e_type={} A={:x?} B={:x?} headers={:?} symbols=variant{} e_entry={:#x}", cfg.name, if spec.e_type == 2 { "ET_EXEC" } else { "ET_DYN" }, spec.a, spec.b, spec.order, var, spec.entry);
             let f1 = ib + 0x200;
             let user_lists: [Vec<u64>; 4] = [vec![], vec![ib + 0x123], vec![f1], vec![ib + 0x123, spec.entry, ib + 0x123, ib + 0x210]];
 
